@@ -55,6 +55,8 @@ func errText(err error) string {
 func gfn(errBuf *strings.Builder, validName, objName, fieldName string, tv reflect.Value) {
 	errBuf.WriteString(valid.GetJoinValidErrStr(objName, fieldName, tv.String(), valid.ExplainEn, "global-fn"))
 }
+func quietFn(errBuf *strings.Builder, validName, objName, fieldName string, tv reflect.Value) {}
+
 func callFn(errBuf *strings.Builder, validName, objName, fieldName string, tv reflect.Value) {
 	errBuf.WriteString(valid.GetJoinValidErrStr(objName, fieldName, tv.String(), valid.ExplainEn, "call-fn"))
 }
@@ -124,6 +126,12 @@ func callMenu() []callT {
 			func(t int) string {
 				return `valid "` + caseVariant(salt*3+t) + `" is not exist, You can call SetValidFn`
 			}},
+		// a per-call function under the name of a built-in rule that other calls rely on
+		{"StructForFns(T2, {phone: accepts everything})", func(t int) []interface{} {
+			return []interface{}{&T2{Tel: "x", Code: "ab", A: "1"}, valid.RM{}, valid.Name2FnMap{"phone": quietFn, "le": quietFn}}
+		}, func(a []interface{}) string {
+			return errText(valid.StructForFns(a[0], a[1].(valid.RM), a[2].(valid.Name2FnMap)))
+		}, nil},
 		// one type, validated by its tags alone and with a per-call rule for a field that carries no tag
 		{"Struct(U1)", func(t int) []interface{} { return []interface{}{&U1{Name: "n", Remark: ""}} },
 			func(a []interface{}) string { return errText(valid.Struct(a[0])) }, nil},
@@ -259,6 +267,68 @@ func raceSig(rep string) string {
 	return strings.Join(fns, "~")
 }
 
+// firstUse: the very first validations of the process run concurrently (no cache was configured, nothing was
+// validated before - not even to compute expected results): whatever the library sets up lazily on first use is set up
+// inside the schedule. One harness per process; the oracle is the race detector plus hard-coded results.
+func firstUse(c *runner.Ctx) {
+	c.Space("racefirst:first-validations-of-the-process")
+	if !c.Take() {
+		return
+	}
+	before := raceLogSize()
+	results := make([]string, 2)
+	ex := &vsched.Explorer{
+		Opt: vsched.Options{Bound: 1, Deadline: c.Deadline()},
+		Setup: func() []func() {
+			return []func(){
+				func() { results[0] = errText(valid.Struct(&T1{F: "", G: 9})) },
+				func() { results[1] = errText(valid.ValidateStruct(&T1{F: "abcdefghijkl", G: 1}, "b")) },
+			}
+		},
+	}
+	want := []string{`"T1.F" input "", explain: need-F; "T1.G" input "9", explain: it is more than 3 num-size`, `"T1.F" input "abcdefghijkl", explain: it is more than 9 str-length; "T1.G" input "1", explain: b-G`}
+	reported := false
+	ex.Check = func(x *vsched.Exec) bool {
+		for t := range results {
+			if x.Panics[t] != "" {
+				c.Violation("panic@"+x.Sites[t], map[string]interface{}{"thread": t, "panic": x.Panics[t], "schedule": x.Choices})
+				return false
+			}
+			if results[t] != want[t] && !reported {
+				reported = true
+				c.Violation("first-use/result-differs", map[string]interface{}{"thread": t, "got": results[t], "want": want[t], "schedule": x.Choices})
+				return false
+			}
+		}
+		return true
+	}
+	// every schedule in a process of its own: only the first execution of a process is a first use
+	var res vsched.Result
+	if choices, child := vsched.ChildChoices(); child {
+		x := ex.Replay(choices)
+		ok := ex.Diverged() == "" && ex.Check(x)
+		if raceLogSize() > before {
+			rep := raceReportFrom(before)
+			c.Violation("data-race:"+raceSig(rep), map[string]interface{}{"harness": "first validations of the process: [Struct(T1)] || [ValidateStruct(T1,b)]", "schedule": choices, "report": rep})
+			ok = false
+		}
+		vsched.WriteChildResult(x, ok)
+		res = vsched.Result{Execs: 1, Steps: int64(len(x.Trace))}
+	} else {
+		budget := 400
+		ex.Remote = vsched.RemoteVia(c.RunCaseInChild, os.Getenv("VERIF_SCRATCH"), &budget, func(prefix []int, stderr string, err error) {
+			c.Violation("first-use/process-died", map[string]interface{}{"schedule": prefix, "error": err.Error(), "stderr": stderr})
+		})
+		res = ex.Explore()
+		if res.Capped {
+			c.MarkIncomplete()
+		}
+	}
+	c.Count("schedules", res.Execs)
+	c.Done(true, int(res.Steps))
+	c.Outcome("ok")
+}
+
 type cacheCfg struct {
 	name string
 	mk   func() valid.CacheEr
@@ -266,7 +336,7 @@ type cacheCfg struct {
 }
 
 func run(c *runner.Ctx) {
-	race := c.Mode == "race" || c.Mode == "racemap"
+	race := c.Mode == "race" || c.Mode == "racemap" || c.Mode == "racefirst"
 	syncMapDirect := c.Mode == "racemap"
 	if race {
 		for _, kv := range strings.Fields(os.Getenv("GORACE")) {
@@ -278,6 +348,10 @@ func run(c *runner.Ctx) {
 			fmt.Fprintln(os.Stderr, "HARNESS-ERROR: race mode without race build / log_path")
 			os.Exit(3)
 		}
+	}
+	if c.Mode == "racefirst" {
+		firstUse(c)
+		return
 	}
 	valid.SetCustomerValidFn("gfn", gfn) // global registration happens before any thread starts
 	d := &deleg{inner: valid.NewLRU()}
@@ -607,7 +681,7 @@ func main() {
 	runner.Main(runner.Config{
 		Property:  "C11",
 		Technique: "stateless model checking of concurrent validation calls under a controlled scheduler with sync.Pool answers as choice points; solo-result oracle + Go race detector on every explored schedule",
-		Rule: "case = one harness (cache LRU(512)|LRU(1), cold|pre-warmed; 2-4 threads x 1-2 calls over a 15-call alphabet (incl. a rule name in a spelling no earlier execution used): Struct / ValidateStruct(tag b) / StructForFn / StructForFns / Struct(slice, groups, global fn) / " +
+		Rule: "case = one harness (cache LRU(512)|LRU(1), cold|pre-warmed; 2-4 threads x 1-2 calls over a 16-call alphabet (incl. a rule name in a spelling no earlier execution used): Struct / ValidateStruct(tag b) / StructForFn / StructForFns / Struct(slice, groups, global fn) / " +
 			"Var with a regex pattern new in every execution / Var with quoted rules / Map / Url / Struct on a struct type new in every execution); every schedule within the preemption+deviation bound is executed on the real code; " +
 			"per call: result = solo result, arguments unmodified; no panic/deadlock; race build: no race report; transitions = scheduling steps; non-trivial = harnesses in which a thread received a pooled object last used by another thread",
 		Assumptions: []string{"sequential consistency for race-free executions; race freedom checked by the race detector per schedule (happens-before edges inside the standard library's own pools are real and may hide a race: false negatives only)",
@@ -616,6 +690,7 @@ func main() {
 		Modes: []runner.Mode{
 			{Name: "plain"},
 			{Name: "direct", Workers: 6},
+			{Name: "racefirst", Workers: 1, BinarySuffix: ".race", Env: []string{"GORACE=log_path={W}.race halt_on_error=0 exitcode=0 atexit_sleep_ms=0 history_size=2"}},
 			{Name: "racemap", Workers: 4, BinarySuffix: ".race", Env: []string{"GORACE=log_path={W}.race halt_on_error=0 exitcode=0 atexit_sleep_ms=0 history_size=2"}},
 			{Name: "race", BinarySuffix: ".race", Env: []string{"GORACE=log_path={W}.race halt_on_error=0 exitcode=0 atexit_sleep_ms=0 history_size=2"}},
 		},
